@@ -122,6 +122,9 @@ class JS:
                 # lexical loop variable (blockIterScope / copyStash path); the body sees it through c
                 return '%sfor (let q = 0; q < %d; q++) { var %s = q; var _f = function(){ return q; }; %s }' % (lab, n, c, b)
             return '%sfor (%s = 0; %s < %d; %s++) { %s }' % (lab, c, c, n, c, b)
+        if kind == 'l':
+            # lexical head declaration captured by a closure: per-iteration scope (blockIterScope, copyStash)
+            return '%sfor (let q%d = 0; q%d < %d; q%d++) { var %s = q%d; var _f = function(){ return q%d; }; %s }' % (lab, id_, id_, n, id_, c, id_, id_, b)
         if kind == 'i':
             return '%sfor (k%d in mkObj(%d)) { var %s = +k%d; %s }' % (lab, id_, n, c, id_, b)
         raise ValueError(s)
@@ -131,7 +134,10 @@ class JS:
         self.ids.add(id_)
         lab = ('L%d: ' % label) if label is not None else ''
         b = self.st(body, id_)
-        src = "mkIt(%d, %d, %d, '%s')" % (id_, n, -1 if nt is None else nt, rm)
+        src = "mkIt(%d, %d, %d, '%s')" % (id_, n, -1 if nt is None else nt, rm.lower())
+        if rm.isupper():
+            # `for (let x of ..)` with a closure capturing x: head scope + per-iteration scope
+            return '%sfor (let x%d of %s) { var c%d = x%d; var _f = function(){ return x%d; }; %s }' % (lab, id_, src, id_, id_, id_, b)
         if self.deco & 4:
             return '%sfor (let x of %s) { var c%d = x; var _f = function(){ return x; }; %s }' % (lab, src, id_, b)
         return '%sfor (c%d of %s) { %s }' % (lab, id_, src, b)
@@ -246,6 +252,13 @@ def levels(cx, d, mode, width):
             yield (lambda h, k=k: ('lbl', lab, ('loop', k, lid, 2, ('seq', h, L)))), cx.loop(lab)
     if not narrow:
         yield (lambda h: ('lbl', lab, ('loop', 'f', lid, 2, ('seq', h, L)))), cx.loop(lab)
+    # loops with a lexical head declaration captured by a closure (per-iteration scope blocks)
+    yield (lambda h: ('loop', 'l', lid, 2, ('seq', h, L))), cx.loop()
+    yield (lambda h: ('forof', lid, 2, None, 'O', ('seq', h, L))), cx.loop()
+    if narrow:
+        yield (lambda h: ('lbl', lab, ('loop', 'l', lid, 2, ('seq', h, L)))), cx.loop(lab)
+        yield (lambda h: ('lbl', lab, ('forof', lid, 2, None, 'O', ('seq', h, L)))), cx.loop(lab)
+        yield (lambda h: ('forof', lid, 2, None, 'T', ('seq', h, L))), cx.loop()
     if narrow:
         yield (lambda h: ('loop', 'w', lid, 3, ('seq', L, ('if', 1, h)))), cx.loop()
     yield (lambda h: ('forof', lid, 2, None, 'o', ('seq', h, L))), cx.loop()
@@ -307,7 +320,7 @@ def rand_stmt(rng, d, cx, mode, st):
         hasF = rng.random() < 0.7 or not hasC
         return ('try', n, sub(), hasC, sub() if hasC else ('skip',), hasF, sub() if hasF else ('skip',))
     if r < 0.64:
-        k = rng.choice('wdfi')
+        k = rng.choice('wdfil')
         cnt = rng.choice([0, 1, 2, 3])
         if rng.random() < 0.4:
             return ('lbl', 100 + n, ('loop', k, n, cnt, sub(cx.loop(100 + n))))
@@ -315,7 +328,7 @@ def rand_stmt(rng, d, cx, mode, st):
     if r < 0.80:
         cnt = rng.choice([0, 1, 2, 3])
         nt = rng.choice([None, None, None, 0, 1, 2])
-        rm = rng.choice('ooootn')
+        rm = rng.choice('ooootnOOT')
         if rng.random() < 0.4:
             return ('lbl', 100 + n, ('forof', n, cnt, nt, rm, sub(cx.loop(100 + n))))
         return ('forof', n, cnt, nt, rm, sub(cx.loop()))
@@ -332,7 +345,7 @@ def rand_stmt(rng, d, cx, mode, st):
 
 # ----------------------------------------------------------------------------- skeleton normalisation
 
-KEEP = {'try', 'leaveTry', 'enterFinally', 'leaveFinally', 'jump', 'jneP', 'jeqP', 'jne', 'jeq', 'iterateP', 'iterNext',
+KEEP = {'copyStash', 'try', 'leaveTry', 'enterFinally', 'leaveFinally', 'jump', 'jneP', 'jeqP', 'jne', 'jeq', 'iterateP', 'iterNext',
         'enumPop', 'enumPopClose', 'enumerate', 'enumNext', 'enterWith', 'leaveWith', 'enterBlock', 'leaveBlock',
         'ret', 'throw', 'NOP'}
 RENAME = {'enterCatchBlock': 'enterBlock', '<nil>': 'NOP'}
@@ -544,8 +557,10 @@ class Checker:
             else:
                 ml.append('B %s%s %s' % (c.mode, c.fatal, t))
         gout = run_sharded(ctx, [self.H], hl) if self.H else ['NO-HARNESS'] * len(cases)
+        retried = 0
         for i, o in enumerate(gout):
-            if o.startswith('TIMEOUT') or o.startswith('NO-OUTPUT'):
+            if (o.startswith('TIMEOUT') or o.startswith('NO-OUTPUT')) and retried < 6:
+                retried += 1
                 # a loaded machine can starve a shard: re-run that one case alone before believing it
                 rc, o2, err = ctx.run_lines([self.H], [hl[i]], timeout=120)
                 if o2:
@@ -747,6 +762,34 @@ def every(it, k, off):
     return itertools.islice(it, off % k, None, k)
 
 
+def crossing_cases():
+    """labelled continue/break (and the other exits) issued inside a NESTED loop — with and without a lexical head
+    declaration — crossing a try/finally, for-of, with or block towards every kind of labelled outer loop"""
+    L = ('log', 1)
+    out = []
+    outers = [lambda h, k=k: ('lbl', 61, ('loop', k, 41, 2, ('seq', h, ('log', 2)))) for k in 'wdfl']
+    outers += [lambda h, rm=rm: ('lbl', 61, ('forof', 41, 2, None, rm, ('seq', h, ('log', 2)))) for rm in 'oO']
+    mids = [lambda h: h,
+            lambda h: ('try', 51, h, False, ('skip',), True, ('log', 3)),
+            lambda h: ('try', 51, h, True, ('log', 4), True, ('log', 3)),
+            lambda h: ('try', 51, ('thr', 7), True, h, True, ('log', 3)),
+            lambda h: ('try', 51, ('log', 4), False, ('skip',), True, h),
+            lambda h: ('forof', 42, 2, None, 'o', ('seq', h, ('log', 5))),
+            lambda h: ('forof', 42, 2, None, 'O', ('seq', h, ('log', 5))),
+            lambda h: ('with', ('seq', h, ('log', 5))),
+            lambda h: ('blk', ('seq', h, ('log', 5))),
+            lambda h: ('try', 51, ('forof', 42, 2, None, 't', ('seq', h, ('log', 5))), False, ('skip',), True, ('log', 3))]
+    inners = [lambda h, k=k: ('loop', k, 43, 2, ('seq', h, ('log', 6))) for k in 'lfw']
+    inners += [lambda h, rm=rm: ('forof', 43, 2, None, rm, ('seq', h, ('log', 6))) for rm in 'Oo']
+    leafs = [('cont', 61), ('brk', 61), ('cont', None), ('brk', None), ('ret', 5), ('thr', 6)]
+    for o in outers:
+        for m in mids:
+            for i in inners:
+                for lf in leafs:
+                    out.append(Case(o(m(i(lf))), 'F'))
+    return out
+
+
 def case_sets(ctx):
     """the generated program sets of this tier in priority order: (name, mandatory, thunk -> list of Case).
     Optional sets are run while the tier's time budget lasts; what was skipped is recorded in the evidence."""
@@ -755,6 +798,7 @@ def case_sets(ctx):
     seed = ctx.seed
     sets = []
     sets.append(('corpus', True, load_corpus))
+    sets.append(('exits from a nested (let-headed) loop across try/for-of/with/block to every labelled loop kind', True, crossing_cases))
 
     def exh(ds, mode, width):
         return lambda: [Case(p, mode) for d in ds for p in chains(d, mode, width)]
